@@ -1,0 +1,12 @@
+//go:build verif
+
+package enum
+
+// Contracts for govc (see /verif/DESIGN.md). Comment-only file.
+// Only the look-ahead site of the enum rule scanner is under contract (C07).
+
+//@ func (*scanner).stateMultiLineAnnotationText(c)
+//@   props C07
+//@   requires s != nil && s.dataSize == len(s.data) && 1 <= s.index && s.index <= s.dataSize
+//@   nopanic
+//@   modifies s.finds, s.finds[*], s.step
